@@ -277,6 +277,10 @@ func c19Breaker(c *Check, P string, m *MW, hc ssa.CallInstruction) {
 			if IsNilConst(v) {
 				return true
 			}
+			if e, isE := v.(*ssa.Extract); isE && e.Index == 0 {
+				// comma-ok form: a failed assertion yields the zero value (nil slice)
+				v = e.Tuple
+			}
 			ta, ok := v.(*ssa.TypeAssert)
 			return ok && AllOrigins(ta.X, func(x ssa.Value) bool { return IsResultOf(x, ex, 0) })
 		})
@@ -396,6 +400,11 @@ func c19Correlation(c *Check, P string, m *MW) {
 		idv, ok := firstOrigin(s.Common().Args[0]).(*ssa.Call)
 		okID := ok && CalleeFn(&idv.Call) == getF && m.IsMsg(idv.Call.Args[0])
 		c.Report(okID, P+".O2", "CORRELATION-SOURCE", I, s.Pos(), "CorrelationID", "the id is read from the consumed message")
+		if okID {
+			for _, hc := range m.HCalls {
+				c.Report(Dominates(I, hc, idv), P+".O2", "CORRELATION-READ-AFTER-CALL", I, idv.Pos(), "CorrelationID", "the id is read after the handler returned (an id the handler or an inner middleware put on the consumed message is the one the outputs get)")
+			}
+		}
 		out := firstOrigin(s.Common().Args[1])
 		okOut := false
 		if u, isU := out.(*ssa.UnOp); isU && u.Op == token.MUL {
